@@ -352,6 +352,31 @@ var trConfs = []trConf{
 		returns: map[string]string{"return err": ".failed err", "return fmt.Errorf(\"message %d does not require gas estimation\", msgID)": ".noEstimation",
 			"return fmt.Errorf(\"gas estimate already exists for message %d\", msgID)": ".alreadyElected",
 			"return c.save(ctx, msg)": "if saveFails then .saveFailed else .saved"}},
+	{key: "x/skyway/keeper.Keeper.checkBadSignatureEvidenceInternal", lean: "checkBadSignatureEvidence", ret: "EvidenceOutcome",
+		prelude: "/-- what bad-signature evidence leads to: refuse (1 chain unknown, 2 checkpoint cannot be computed, 3 the checkpoint was issued by the chain,\n    4 signature does not decode, 5 no key recovered, 6 validator look-up failed, 7 key belongs to no validator, 8 consensus address, 9 / 10 staking failure)\n    or accept — jailing the key's validator unless it is jailed already -/\ninductive EvidenceOutcome where\n  | rejected (code : Nat) | jailed | alreadyJailed\nderiving DecidableEq, Repr",
+		params: []trParam{{"chainKnown", "Bool"}, {"checkpointFails", "Bool"}, {"archived", "Bool"}, {"sigDecodes", "Bool"}, {"recovers", "Bool"},
+			{"lookupFails", "Bool"}, {"found", "Bool"}, {"consFails", "Bool"}, {"isJailed", "Bool"}, {"jailFails", "Bool"}, {"slashFails", "Bool"}},
+		init:  []string{"let mut err : Nat := 0", "let mut didJail : Bool := false"},
+		atoms: map[string]string{"err != nil": "err != 0", "k.GetPastEthSignatureCheckpoint(ctx, checkpoint)": "archived", "val.IsJailed()": "isJailed"},
+		skip:  []string{"turnstoneID := string(ci.SmartContractUniqueID)", "sdkCtx := sdk.UnwrapSDKContext(ctx)", "slashingFrac := math.LegacyZeroDec()"},
+		stmts: map[string][]string{
+			"ci, err := k.EVMKeeper.GetChainInfo(ctx, subject.GetChainReferenceID())": {"err := if chainKnown then 0 else 1"},
+			"checkpoint, err := subject.GetCheckpoint(turnstoneID)":                   {"err := if checkpointFails then 2 else 0"},
+			"if signature[:2] == \"0x\" { signature = signature[2:] }":              {},
+			"sigBytes, err := hex.DecodeString(signature)":                            {"err := if sigDecodes then 0 else 4"},
+			"ethAddress, err := types.EthAddressFromSignature(checkpoint, sigBytes)":  {"err := if recovers then 0 else 5"},
+			"val, found, err := k.GetValidatorByEthAddress(ctx, *ethAddress, subject.GetChainReferenceID())": {"err := if lookupFails then 6 else 0"},
+			"cons, err := val.GetConsAddr()":            {"err := if consFails then 8 else 0"},
+			"err := k.StakingKeeper.Jail(ctx, cons)":    {"err := if jailFails then 9 else 0", "if err == 0 then", "  didJail := true"},
+			"_, err = k.StakingKeeper.Slash(ctx, cons, sdkCtx.BlockHeight(), val.ConsensusPower(sdk.DefaultPowerReduction), slashingFrac)": {"err := if slashFails then 10 else 0"}},
+		returns: map[string]string{"return sdkerrors.Wrap(err, \"unable to create batch\")": ".rejected err", "return err": ".rejected err",
+			"return sdkerrors.Wrap(types.ErrInvalid, \"Checkpoint exists, cannot slash\")": ".rejected 3",
+			"return sdkerrors.Wrap(types.ErrInvalid, fmt.Sprintf(\"signature decoding %s\", signature))": ".rejected err",
+			"return sdkerrors.Wrap(types.ErrInvalid, fmt.Sprintf(\"signature to eth address failed with checkpoint %s and signature %s\", hex.EncodeToString(checkpoint), signature))": ".rejected err",
+			"return sdkerrors.Wrap(types.ErrInvalid, fmt.Sprintf(\"Did not find validator for eth address %s from signature %s with checkpoint %s and TurnstoneID %s\", ethAddress.GetAddress().Hex(), signature, hex.EncodeToString(checkpoint), turnstoneID))": ".rejected 7",
+			"return sdkerrors.Wrap(err, \"Could not get consensus key address for validator\")": ".rejected err",
+			"return fmt.Errorf(\"checkBadSignatureEvidenceInternal jail: %w\", err)": ".rejected err",
+			"return nil": "if didJail then .jailed else .alreadyJailed"}},
 	{key: "x/metrix/keeper.calculateUptime", lean: "calculateUptimeGuard", ret: "Bool",
 		params: []trParam{{"window", "Int"}, {"missed", "Int"}},
 		// only the guard is arithmetic; the division goes through big.Float (modelled in C14's score arithmetic)
